@@ -62,35 +62,30 @@ Qed.
 Lemma zsum_cons x t : zsum (x :: t) = x + zsum t.
 Proof. unfold zsum at 1. cbn [fold_left]. rewrite zsum_from. lia. Qed.
 
-Lemma step_sum_checked : forall vs acc, forallb sum_dom vs = true ->
+Lemma step_sum : forall m vs acc, forallb sum_dom vs = true ->
   partial_ok (- two63) (two63 - 1) acc (ints_of_vals vs) = true ->
-  fold_left (agg_step Checked) vs (SSum acc) = SSum (acc + zsum (ints_of_vals vs)).
+  fold_left (agg_step m) vs (SSum acc) = SSum (acc + zsum (ints_of_vals vs)).
 Proof.
-  induction vs as [|v t IH]; intros acc D P; [cbn; f_equal; unfold zsum; cbn; lia|].
+  intros m. induction vs as [|v t IH]; intros acc D P; [cbn; f_equal; unfold zsum; cbn; lia|].
   cbn [forallb] in D. apply andb_true_iff in D as [D1 D2].
   cbn [fold_left]. destruct v as [|b|i|f|s|l]; cbn [agg_step ints_of_vals flat_map app] in *;
     try (apply IH; assumption); try discriminate D1.
   - (* Int *)
     cbn [partial_ok] in P. apply andb_true_iff in P as [P1 P2]. apply andb_true_iff in P1 as [Pa Pb].
-    unfold add_i64, in_i64b. rewrite Pa. replace (acc + i <? two63) with true by (symmetry; apply Z.ltb_lt; apply Z.leb_le in Pb; lia).
+    unfold in_i64b. rewrite Pa. replace (acc + i <? two63) with true by (symmetry; apply Z.ltb_lt; apply Z.leb_le in Pb; lia).
     cbn [andb]. rewrite (IH _ D2 P2), zsum_cons. unfold ints_of_vals. f_equal. lia.
   - (* Str *)
     cbn [sum_dom] in D1. destruct (numeric_like s); [discriminate D1|]. apply IH; assumption.
 Qed.
-Lemma step_sum_wrapping_small : forall vs acc, forallb sum_dom vs = true ->
-  partial_ok (- two63) (two63 - 1) acc (ints_of_vals vs) = true ->
-  fold_left (agg_step Wrapping) vs (SSum acc) = SSum (acc + zsum (ints_of_vals vs)).
+(** since a66b89b no aggregate state is a panic *)
+Lemma agg_step_no_panic m st v : st_panic st = false -> st_panic (agg_step m st v) = false.
 Proof.
-  induction vs as [|v t IH]; intros acc D P; [cbn; f_equal; unfold zsum; cbn; lia|].
-  cbn [forallb] in D. apply andb_true_iff in D as [D1 D2].
-  cbn [fold_left]. destruct v as [|b|i|f|s|l]; cbn [agg_step ints_of_vals flat_map app] in *;
-    try (apply IH; assumption); try discriminate D1.
-  - cbn [partial_ok] in P. apply andb_true_iff in P as [P1 P2]. apply andb_true_iff in P1 as [Pa Pb].
-    apply Z.leb_le in Pa, Pb. unfold add_i64.
-    assert (E : sint64 (acc + i) = acc + i).
-    { apply sint64_small. unfold in_i64. lia. }
-    rewrite E, (IH _ D2 P2), zsum_cons. unfold ints_of_vals. f_equal. lia.
-  - cbn [sum_dom] in D1. destruct (numeric_like s); [discriminate D1|]. apply IH; assumption.
+  destruct st as [n|s|s n|o|o|o|o|l| |]; cbn [agg_step]; intros H; try discriminate H; try reflexivity.
+  - destruct v; try reflexivity. + destruct (in_i64b (s + z)); reflexivity. + destruct (numeric_like s0); reflexivity.
+  - destruct v; try reflexivity. + destruct ((Z.abs z <=? two53) && (Z.abs (s + z) <=? two53)); reflexivity. + destruct (numeric_like s0); reflexivity.
+  - destruct o as [cur|]; [|reflexivity]. destruct (agg_cmp v cur) as [[c|]|]; try reflexivity. destruct (c <? 0); reflexivity.
+  - destruct o as [cur|]; [|reflexivity]. destruct (agg_cmp v cur) as [[c|]|]; try reflexivity. destruct (0 <? c); reflexivity.
+  - destruct o; reflexivity.
 Qed.
 
 (** * AVG *)
@@ -343,18 +338,24 @@ Lemma count_col2_l m c cs :
   simple_agg2 m [FCount c] [TInt] cs = Ok [[VInt (Z.of_nat (length (col_vals c (rows_of cs))))]].
 Proof. rewrite simple_agg2_single, fold_count. reflexivity. Qed.
 
-Lemma sum_spec_l c cs :
+Lemma sum_spec_l m c cs :
   let vs := col_vals c (rows_of cs) in
   forallb sum_dom vs = true -> partial_ok (- two63) (two63 - 1) 0 (ints_of_vals vs) = true ->
-  simple_agg2 Checked [FSum c] [TInt] cs = Ok [[VInt (zsum (ints_of_vals vs))]].
+  simple_agg2 m [FSum c] [TInt] cs = Ok [[VInt (zsum (ints_of_vals vs))]].
 Proof.
-  intros vs D P. rewrite simple_agg2_single, (fold_one_col Checked (FSum c) c) by reflexivity.
-  cbn [agg_init]. fold vs. rewrite (step_sum_checked vs 0 D P). reflexivity.
+  intros vs D P. rewrite simple_agg2_single, (fold_one_col m (FSum c) c) by reflexivity.
+  cbn [agg_init]. fold vs. rewrite (step_sum m vs 0 D P). reflexivity.
 Qed.
-Lemma sum_overflow_refuted_l : exists cs,
-  simple_agg2 Checked [FSum 0%nat] [TInt] cs = Panic
-  /\ simple_agg2 Wrapping [FSum 0%nat] [TInt] cs = Ok [[VInt (- two63)]].
-Proof. exists [mkChunk [[VInt (two63 - 1)]; [VInt 1]] None]. split; vm_compute; reflexivity. Qed.
+(** the integer sum before a66b89b: a panic (overflow-checked build) or a wrong sum (release build) *)
+Lemma sum_overflow_pre_refuted_l : exists l,
+  sum_fold_pre Checked l = Panic /\ sum_fold_pre Wrapping l = Ok (- two63) /\ zsum l = two63.
+Proof. exists [two63 - 1; 1]. repeat split; vm_compute; reflexivity. Qed.
+(** ... and now: no panic; the operator leaves the integer domain (floating-point sum, not interpreted) *)
+Lemma sum_overflow_now_l : forall m,
+  simple_agg2 m [FSum 0%nat] [TAny] [mkChunk [[VInt (two63 - 1)]; [VInt 1]] None] = Ok [[out_marker]].
+Proof. intros m. vm_compute. reflexivity. Qed.
+Lemma fold_step_no_panic m : forall vs st, st_panic st = false -> st_panic (fold_left (agg_step m) vs st) = false.
+Proof. induction vs as [|v t IH]; intros st H; [exact H|]. cbn [fold_left]. apply IH. now apply agg_step_no_panic. Qed.
 
 Lemma avg_spec_l m c cs :
   let vs := col_vals c (rows_of cs) in
@@ -432,14 +433,14 @@ Lemma push_typed_ok t v : type_okb t v = true -> push_typed t v = v.
 Proof. destruct t, v; cbn; try discriminate; reflexivity. Qed.
 Lemma min_string_typed_refuted_l : exists cs v,
   simple_agg2 Checked [FMin 0%nat] [TAny] cs = Ok [[v]] /\ v <> VInt 0
-  /\ simple_agg2 Checked [FMin 0%nat] [planner_type (FMin 0%nat)] cs = Ok [[VInt 0]].
+  /\ simple_agg2 Checked [FMin 0%nat] [planner_type_pre (FMin 0%nat)] cs = Ok [[VInt 0]].
 Proof.
   exists [mkChunk [[VStr [98]]; [VStr [97]]] None], (VStr [97]). repeat split; try reflexivity. discriminate.
 Qed.
 (** with the prepared repair of C11-K9 the result vector of SUM / MIN / MAX / COLLECT / FIRST / LAST
     takes every value *)
-Lemma planner_type_fix_ok f v : match f with FCountStar | FCount _ | FAvg _ => True | _ => push_typed (planner_type_fix f) v = v end.
-Proof. destruct f; try exact I; cbn [planner_type_fix]; apply push_typed_any. Qed.
+Lemma planner_type_fix_ok f v : match f with FCountStar | FCount _ | FAvg _ => True | _ => push_typed (planner_type f) v = v end.
+Proof. destruct f; try exact I; cbn [planner_type]; apply push_typed_any. Qed.
 
 (** * the result vectors of the hash aggregate: with intact validity bitmaps (prepared repair of
       C11-K11) every group row is key ++ typed results; as the code is, a second NULL in a typed
@@ -450,11 +451,11 @@ Proof.
   cbn [map combine fst snd]. f_equal. exact IH.
 Qed.
 Lemma hash_agg2_fix_l m gcols aggs tys cs :
-  hash_agg2_fix m gcols aggs tys cs
+  hash_agg2 m gcols aggs tys cs
   = let gs := hash_groups2 m gcols aggs (rows_of cs) in
     if existsb (fun g => existsb st_panic (snd g)) gs then Panic else Ok (map (group_row2 tys) gs).
-Proof. unfold hash_agg2_fix, hash_agg2_v. cbn zeta. now rewrite hash_agg2_rows_fix. Qed.
+Proof. unfold hash_agg2, hash_agg2_v. cbn zeta. now rewrite hash_agg2_rows_fix. Qed.
 Lemma typed_vector_second_null_refuted_l : exists cs,
-  hash_agg2 Checked [0%nat] [FAvg 1%nat] [TFloat] cs = Ok [[VInt 1; VNull]; [VInt 2; VFloat 0]]
-  /\ hash_agg2_fix Checked [0%nat] [FAvg 1%nat] [TFloat] cs = Ok [[VInt 1; VNull]; [VInt 2; VNull]].
+  hash_agg2_pre Checked [0%nat] [FAvg 1%nat] [TFloat] cs = Ok [[VInt 1; VNull]; [VInt 2; VFloat 0]]
+  /\ hash_agg2 Checked [0%nat] [FAvg 1%nat] [TFloat] cs = Ok [[VInt 1; VNull]; [VInt 2; VNull]].
 Proof. exists [mkChunk [[VInt 1; VNull]; [VInt 2; VNull]] None]. split; reflexivity. Qed.
